@@ -63,8 +63,15 @@ def build_executables(drivers, collectors, codegens, sim=True, real=False, sourc
 
     def one(job):
         d, gc, cg = job
-        src = (sources or {}).get(d) or os.path.join(VERIF, "workloads", d + ".dora")
-        base = os.path.join(TB, "%s-%s-%s" % (d, gc, cg))
+        src = (sources or {}).get(d) or os.path.join(VERIF, "workloads", d.split("@")[0] + ".dora")
+        if "@" in d and not (sources or {}).get(d):
+            # layout variant of a driver ("heapgraph@3"): generated source, same behaviour
+            import model_heapgraph
+            makers = {"heapgraph": model_heapgraph.make_variant}
+            name, vid = d.split("@")
+            src = os.path.join(TB, "%s-v%s-%s-%s.dora" % (name, vid, gc, cg))
+            makers[name](src, int(vid))
+        base = os.path.join(TB, "%s-%s-%s" % (d.replace("@", "-v"), gc, cg))
         cmd = [dora, "compile", "-S", "--gc=" + gc, src, "-o", base]
         cmd += ["--cannon"] if cg == "cannon" else ["--compiler", boots]
         p = sh(cmd)
@@ -370,7 +377,7 @@ def minimise(prop, exes, run, v, shrink, expect_fn, max_tests=150, budget_s=90, 
     progress = True
     while progress and tests < max_tests:
         progress = False
-        for argv in (shrink(cur["argv"]) if not hasattr(shrink, "by_driver") else shrink.by_driver[cur["exe"][0]](cur["argv"])):
+        for argv in (shrink(cur["argv"]) if not hasattr(shrink, "by_driver") else shrink.by_driver[cur["exe"][0].split("@")[0]](cur["argv"])):
             if tests >= max_tests:
                 break
             cand = dict(cur)
